@@ -1,5 +1,7 @@
 package main
 
+import "strings"
+
 // C01 — RP ID-token validation (DESIGN §5 C01): E1 must-pass-through on VerifyIDToken / VerifyTokens /
 // VerifyAccessToken, and each Check* predicate with its duals (accept-set == OIDC Core 3.1.3.7 rule).
 
@@ -111,6 +113,23 @@ func init() {
 		Ob{ID: "E8.claims.getter.GetAuthenticationContextClassReference.only", Fn: "oidc.(*TokenClaims).GetAuthenticationContextClassReference", P: []string{"c"}, Kind: "ret any", Nots: []string{"ret($c.AuthenticationContextClassReference)"}, Forbid: true, Why: "no other value is handed to the checks"})
 	obs = append(obs, Ob{ID: "E8.claims.getter.GetAccessTokenHash", Fn: "oidc.(*IDTokenClaims).GetAccessTokenHash", P: []string{"t"}, Kind: "ret any", Pat: "ret($t.AccessTokenHash)"},
 		Ob{ID: "E8.claims.getter.GetAccessTokenHash.only", Fn: "oidc.(*IDTokenClaims).GetAccessTokenHash", P: []string{"t"}, Kind: "ret any", Nots: []string{"ret($t.AccessTokenHash)"}, Forbid: true})
+	// the claim predicates are shared by the OP-side verifiers: C14 (JWT assertions: aud, exp, iat), C08/C15 (access tokens:
+	// iss, exp), C18 (id_token_hint: iss, acr, exp, iat, auth_time) re-evaluate the predicates they rely on
+	for _, o := range obs {
+		share := func(props ...string) {
+			for _, p := range props {
+				sharedObs[p] = append(sharedObs[p], o)
+			}
+		}
+		switch {
+		case strings.HasPrefix(o.ID, "E1.check.exp."):
+			share("C14", "C08", "C15", "C18")
+		case strings.HasPrefix(o.ID, "E1.check.issuer."):
+			share("C08", "C15", "C18")
+		case strings.HasPrefix(o.ID, "E1.check.audience."), strings.HasPrefix(o.ID, "E1.check.iat."):
+			share("C14")
+		}
+	}
 	register(&PropSpec{
 		ID: "C01",
 		Explanation: "Decides, for all paths: (1) rp.VerifyIDToken returns claims only after ParseToken and the ten Check* calls succeeded on the returned claims value, each bound to the verifier field the standard names (issuer, client id, offset, max ages, nonce, acr, key set, algorithms); (2) VerifyTokens/VerifyAccessToken bind at_hash to the left-half hash of the given access token with the ID token's own algorithm; (3) each Check* predicate's accept path and each of its reject paths carry exactly the OIDC Core 3.1.3.7 condition (accept-set and its dual), with time comparisons normalised (After->Before, Round/UTC dropped); (4) the algorithm->hash table. Does not decide: true time, signature arithmetic, value equality of returned claims beyond variable identity.",
